@@ -30,24 +30,29 @@
   evaluated by the tie on every document, flag `c1`; never false); no fuel exhaustion (`convertf_never_loops_of`: hypotheses
   `BlockNoLoopF`, `InlineNoLoopF`; unconditional with the extension off, `convertf_never_loops_partial`).
 
-  ROUND 2. (S) holds of the parse of EVERY source (`shape_always_ok`), so the six clauses hold of the tree the renderer
+  ROUNDS 2–3. (S) holds of the parse of EVERY source (`shape_always_ok`), so the six clauses hold of the tree the renderer
   receives for every document `convertF` converts (`convertf_footnotes_consistent_unconditional`). (S) holds by construction
   of the composed model: its footnote DOMAIN MONITORS (not Go code) answer `pre` for the stores / inline results Go never
-  builds. That the monitors never fire is `MonitorsNeverFire`; of it are PROVED: the store of the `MF` block driver is
-  tree-shaped and the footnote context names existing nodes other than node 0 (`convertf_store_wellformed`); the block
-  monitor never fires — the walk meets the FootnoteList at most once, node 0 is the plain Document
-  (`convertf_block_monitor_never_fires`); the inline monitor never fires — every FootnoteLink of the inline phase points at
-  a definition of the list (`convertf_inline_links_resolve`). LEFT, stated: `FootnotesAllFiled` (every Footnote the walk meets
-  is a child of the list, the list's children are Footnotes, none nested, no lines — the close discipline of the driver);
-  `monitors_never_fire_of : FootnotesAllFiled → MonitorsNeverFire`. The tie evaluates the monitors on every document (an
-  `err:` answer is a disagreement): never observed. Stated, not proved: `ConvertFNeverLoops` (`BlockNoLoopF`,
-  `InlineNoLoopF`).
+  builds. THAT NO MONITOR EVER FIRES IS A THEOREM, for every byte string (`monitors_never_fire`):
+  * the store of the `MF` block driver is tree-shaped and the footnote context names existing nodes other than node 0
+    (`convertf_store_wellformed`); the walk meets the FootnoteList at most once, node 0 is the plain Document
+    (`convertf_block_monitor_never_fires`);
+  * every FootnoteLink of the inline phase points at a definition of the list (`convertf_inline_links_resolve`);
+  * the CLOSE DISCIPLINE of the driver (`convertf_close_discipline`: at the end the open-block stack is empty; every
+    `*ast.Footnote` and the list have their store kind, no node of that kind has lines, every child edge to a Footnote comes from
+    the list) and with it `footnotes_all_filed`: no Footnote outside the list, none (and no list) below a definition, the list
+    reached with fuel, no lines on Footnote / list.
+  A child of the FootnoteList that is no Footnote is NOT a monitor: the model mirrors the panic of the transformer's type
+  assertion (footnote.go:251; tag `alien`, outcome `value assert`).
+  Stated, not proved: `ConvertFNeverLoops` (`BlockNoLoopF`, `InlineNoLoopF`).
 -/
 import GM.Proof.ConvertFMain
 import GM.Proof.ConvertFCons2
 import GM.Proof.ConvertFShape
 import GM.Proof.ConvertFOnce
 import GM.Proof.ConvertFLinks
+import GM.Proof.ConvertFFiled
+import GM.Proof.ConvertFNoPre
 
 namespace GM.Props.C16E2E
 open GM GM.Text GM.Convert GM.ConvertF
@@ -225,9 +230,11 @@ theorem convertf_inline_links_resolve (env : GM.Inl.Env) (src : Bytes) (refs : O
     linksBelowL (refs.getD []).length kids = true :=
   GM.Inl.FLinks.parseBlockX_linksBelow env src refs lines kids h
 
-/-- FULL STATEMENT (not proved): what is left of `MonitorsNeverFire` — in the final store every `*ast.Footnote` the walk
-    meets is a child of the FootnoteList, the list's children are Footnotes, neither occurs below a definition, and they
-    have no lines (the close discipline of the driver: every opened Footnote is closed into the list before its parent). -/
+/-- the last part of `MonitorsNeverFire` (a theorem: `footnotes_all_filed`) — in the final store every `*ast.Footnote` the
+    walk meets is a child of the FootnoteList, neither a Footnote nor the list occurs below a definition, the list is reached
+    with fuel, and Footnote / list nodes have no lines (the close discipline of the driver: every opened Footnote is closed
+    into the list before its parent). A child of the list that is no Footnote is not a monitor: the model mirrors the panic of
+    the transformer's type assertion `footnote.(*ast.Footnote)` (footnote.go:251; tag `alien`, outcome `value assert`). -/
 def FootnotesAllFiled : Prop :=
   ∀ (guard : Bool) (src : Bytes) (f : FS) (st : GM.Blocks.St), blockPhaseF true guard src = .ok (f, st) →
     (treeOfF f st.nodes st.nodes.length .body 0).clean = true
@@ -235,6 +242,42 @@ def FootnotesAllFiled : Prop :=
 theorem monitors_never_fire_of (h : FootnotesAllFiled) : MonitorsNeverFire :=
   ⟨fun guard src f st e => ⟨monitor_never_fires true guard src f st e, h guard src f st e⟩,
     GM.Inl.FLinks.parseBlockX_linksBelow⟩
+
+/-- **The close discipline of the block driver with the footnote block parser** (`MF` copy; technique and parser-level
+    lemmas of GM.Proof.ConvertHWF*, carried over): for every source, guard setting and registration flag, in the final state
+    of the block phase the open-block stack is empty and the invariant `FJ` holds — the store is tree-shaped, every
+    `*ast.Footnote` and the FootnoteList are nodes of their store kind, NO node of that kind has lines, and every child edge to
+    a Footnote comes from the FootnoteList. -/
+theorem convertf_close_discipline (on guard : Bool) (src : Bytes) (f : FS) (st : GM.Blocks.St)
+    (h : blockPhaseF on guard src = .ok (f, st)) : FJ f st ∧ st.pc.opened = [] :=
+  blockPhaseF_disc on guard src f st h
+
+/-- **Every Footnote is filed** — `FootnotesAllFiled` is a theorem. -/
+theorem footnotes_all_filed : FootnotesAllFiled :=
+  fun guard src f st e => blockPhaseF_clean true guard src f st e
+
+/-- **NO DOMAIN MONITOR OF THE FOOTNOTE MODEL EVER FIRES** — `MonitorsNeverFire` is a theorem, for every byte string: after
+    every block phase `monitorFires = false` and the tagged tree is `clean`; every FootnoteLink of every inline phase points at
+    a definition of the list. With `shape_always_ok` and `convertf_footnotes_consistent_unconditional`: C16 end to end for
+    every byte string with no footnote monitor left in the way. -/
+theorem monitors_never_fire : MonitorsNeverFire := monitors_never_fire_of footnotes_all_filed
+
+/-- FULL STATEMENT (not proved; a C01 fact of the extension, not a monitor): the children of the FootnoteList are
+    `*ast.Footnote`s — the type assertion `footnote.(*ast.Footnote)` of the AST transformer (footnote.go:251; the model's
+    outcome `value assert`, tag `alien`) never panics. Only `(*footnoteBlockParser).Close` appends to the list; what is missing
+    for a proof is a frame fact about the child edges the default parsers' tree surgery ADDS (they never add one to the list). -/
+def ListKidsAreFootnotes : Prop :=
+  ∀ (guard : Bool) (src : Bytes) (f : FS) (st : GM.Blocks.St), blockPhaseF true guard src = .ok (f, st) →
+    ∀ l, f.list = some l → ∀ c ∈ (st.nodes.getD l default).children, f.isFn c = true
+
+/-- **…in terms of outcomes**: for every byte string (guard setting, Unicode class assignment) the parse phases of the composed
+    model with the extension never answer `value pre` — the outcome of every footnote monitor of the tree phase (`stray`, lines
+    on a Footnote / the list, a FootnoteLink to no definition) — and they answer `blocks pre` only when the BLOCK PHASE itself
+    does (the retry contract monitors of the block driver that `convertCore` has too), never because of `monitorFires`. -/
+theorem convertf_no_footnote_monitor_outcome (guard : Bool) (uc : List (Nat × (Bool × Bool))) (src : Bytes) (e : Err)
+    (h : parsePhases true guard uc src = .error e) :
+    e ≠ .value .pre ∧ (e = .blocks .pre → blockPhaseF true guard src = .error .pre) :=
+  parsePhases_noMonitor guard uc src e h
 
 /-- **The tree the renderer receives shows exactly the output of GM.Footnote.render on its abstraction**, for EVERY tree `t`
     in front of the transformer that satisfies (S) — in particular (by the tie's evaluation) the one of every source: the
